@@ -340,6 +340,40 @@ pub fn mutate(rng: &mut Rng, gm: &GenMsg) -> (Vec<u8>, &'static str) {
     (m, name)
 }
 
+/// A well-framed message (counts, names and RDLENGTHs all consistent) whose
+/// records carry nested structures that are framed correctly but violate what
+/// the inner keys or codes demand: SVCB/HTTPS parameters and EDNS options.
+/// Outer parsing succeeds, so the typed readers and the display code are reached.
+pub fn typed_hostile_message(rng: &mut Rng) -> Vec<u8> {
+    use crate::gen::rdata as g;
+    let nrec = rng.range(1, 3);
+    let with_opt = rng.chance(1, 2);
+    let mut m = w::header(rng.u16(), *rng.pick(&[0x0100u16, 0x8180, 0x8400]), [1, nrec as u16, 0, with_opt as u16]);
+    let qn = names::abs_name(rng);
+    m.extend_from_slice(&qn);
+    m.extend_from_slice(&[0, 65, 0, 1]);
+    for _ in 0..nrec {
+        let t = *rng.pick(&[64u16, 65]);
+        let mut rd = match rng.below(3) { 0 => vec![0, 0], 1 => vec![0, 1], _ => rng.u16().to_be_bytes().to_vec() };
+        if rng.chance(1, 3) { rd.extend_from_slice(&names::abs_name(rng)) } else { rd.push(0) };
+        rd.extend_from_slice(&g::hostile_svcparams(rng));
+        // owner: pointer to the question name
+        m.extend_from_slice(&[0xC0, 12]);
+        m.extend_from_slice(&t.to_be_bytes());
+        m.extend_from_slice(&[0, 1, 0, 0, 0, 60]);
+        m.extend_from_slice(&(rd.len() as u16).to_be_bytes());
+        m.extend_from_slice(&rd);
+    }
+    if with_opt {
+        let rd = g::hostile_options(rng);
+        m.push(0);
+        m.extend_from_slice(&[0, 41, 0x04, 0xD0, 0, 0, if rng.bool() { 0x80 } else { 0 }, 0]);
+        m.extend_from_slice(&(rd.len() as u16).to_be_bytes());
+        m.extend_from_slice(&rd);
+    }
+    m
+}
+
 /// Random octets with a valid-looking header.
 pub fn random_message(rng: &mut Rng) -> Vec<u8> {
     let len = match rng.below(10) {
